@@ -232,4 +232,37 @@ func configCase(cs *fw.Case) {
 		}
 		cs.Cover(monitor + ":logpdf-compared")
 	}
+	// behaviour under subsequent use: a clone of the imported distribution
+	// evaluates like a clone of the original
+	for i, pr := range in.Probes {
+		var a, b obs
+		pa := fw.Call(func() {
+			c, _ := cloneAny(in.Dist)
+			v, err := distcat.LogPdf(c, pr, t)
+			a.v = v
+			if err != nil {
+				a.err = "error"
+			}
+		})
+		pb := fw.Call(func() {
+			c, _ := cloneAny(dec)
+			v, err := distcat.LogPdf(c, pr, t)
+			b.v = v
+			if err != nil {
+				b.err = "error"
+			}
+		})
+		if (pa != nil) != (pb != nil) || (pa == nil && a.err != b.err) {
+			fail("use:Clone.LogPdf", fmt.Sprintf("a clone of the imported distribution behaves differently at probe %d: panic %v / outcome %q, clone of the original: panic %v / outcome %q", i, pb != nil, b.err, pa != nil, a.err))
+			return
+		}
+	}
+}
+
+func cloneAny(d any) (any, bool) {
+	m := reflect.ValueOf(d).MethodByName("Clone")
+	if !m.IsValid() || m.Type().NumIn() != 0 || m.Type().NumOut() != 1 {
+		return d, false
+	}
+	return m.Call(nil)[0].Interface(), true
 }
